@@ -437,6 +437,8 @@ func c02Stream(r *hx.Rand, tier string, n int, w *bufio.Writer) map[string]int {
 	}
 	c02SerialisationStream(r, env, n/2)
 	c02RotationStream(r, env, n/16)
+	c02EndpointStream(r, env, n/8)
+	c02ReuseStream(r, env, n/16)
 	return stats
 }
 
@@ -461,6 +463,17 @@ type c02Case struct {
 	remote     *c02Remote // rp: a long-lived remote key set (stateful histories); nil = a fresh one per case
 	part       string     // prefix of the statistics keys
 	tags       []string   // extra key/value pairs describing how the case was generated (not read by the driver)
+	reuse      *c02Reuse  // at | hint | assertion: ONE verifier object (and key-set object) that lives across the steps of a history
+}
+
+// c02Reuse: the verifier objects of a reuse history (c02ep.go); built once, handed to every step
+type c02Reuse struct {
+	at       *op.AccessTokenVerifier
+	hint     *op.IDTokenHintVerifier
+	jv       *op.JWTProfileVerifier
+	store    *keyStore       // behind the ONE *op.OpenIDKeySet of at / hint / an explicit assertion key set; its keys may change between steps
+	cstore   *clientKeyStore // behind the JWT-profile verifier's per-assertion key set
+	explicit bool            // assertion: the verifier was built with NewJWTProfileVerifierKeySet(<the OpenIDKeySet over store>)
 }
 
 // c02Remote: one rp.NewRemoteKeySet that lives across the steps of a history
@@ -533,6 +546,10 @@ func (e *c02Env) verify(c c02Case) {
 			o = append(o, op.WithSupportedAccessTokenSigningAlgorithms(algs...))
 		}
 		v := op.NewAccessTokenVerifier(issuer, &op.OpenIDKeySet{Storage: &keyStore{keys: set}}, o...)
+		if c.reuse != nil {
+			c.reuse.store.keys = set // what the storage publishes now; verifier and key-set OBJECT are the history's
+			v = c.reuse.at
+		}
 		call(func() { gotC, verr = op.VerifyAccessToken[*oidc.IDTokenClaims](context.Background(), tok, v) })
 		l.S("v.iss", issuer)
 		ksLinePub(l, "published", set)
@@ -542,6 +559,10 @@ func (e *c02Env) verify(c c02Case) {
 			o = append(o, op.WithSupportedIDTokenHintSigningAlgorithms(algs...))
 		}
 		v := op.NewIDTokenHintVerifier(issuer, &op.OpenIDKeySet{Storage: &keyStore{keys: set}}, o...)
+		if c.reuse != nil {
+			c.reuse.store.keys = set
+			v = c.reuse.hint
+		}
 		call(func() {
 			gotC, verr = op.VerifyIDTokenHint[*oidc.IDTokenClaims](context.Background(), tok, v)
 			var exp op.IDTokenHintExpiredError
@@ -566,6 +587,16 @@ func (e *c02Env) verify(c c02Case) {
 			l.S("v.subjcheck", "any")
 		}
 		v := op.NewJWTProfileVerifier(st, issuer, time.Hour, time.Second, jo...)
+		if c.reuse != nil {
+			// the registry is the history's (handed over in c.reuse.cstore); `set` is the explicit key set, if any
+			st = c.reuse.cstore
+			v = c.reuse.jv
+			if c.reuse.explicit {
+				c.reuse.store.keys = set
+				l.S("v.ks", "explicit")
+				ksLinePub(l, "published", set)
+			}
+		}
 		var req *oidc.JWTTokenRequest
 		call(func() { req, verr = op.VerifyJWTAssertion(context.Background(), tok, v) })
 		if verr == nil && req != nil {
